@@ -30,6 +30,7 @@ import io
 import logging
 import os
 import shutil
+import subprocess
 import sys
 import tempfile
 import zipfile
@@ -53,14 +54,28 @@ class InjectedInterrupt(KeyboardInterrupt):  # a BaseException: Ctrl-C in the mi
     pass
 
 
-EXC = {"os": InjectedOSError, "rt": InjectedRuntimeError, "kbd": InjectedInterrupt}
-INJECTED = (InjectedOSError, InjectedRuntimeError, InjectedInterrupt)
+class InjectedSystemExit(SystemExit):  # sys.exit() from a signal handler / another thread's request
+    pass
+
+
+class InjectedGeneratorExit(GeneratorExit):
+    pass
+
+
+class InjectedBase(BaseException):  # a BaseException that is none of the built-in ones
+    pass
+
+
+EXC = {"os": InjectedOSError, "rt": InjectedRuntimeError, "kbd": InjectedInterrupt,
+       "sysexit": InjectedSystemExit, "genexit": InjectedGeneratorExit, "base": InjectedBase}
+INJECTED = (InjectedOSError, InjectedRuntimeError, InjectedInterrupt, InjectedSystemExit, InjectedGeneratorExit,
+            InjectedBase)
 
 
 # ------------------------------------------------------------------------------------------
 # tracer
 class Tracer:
-    def __init__(self, target, inject_at=None, exc="os"):
+    def __init__(self, target, inject_at=None, exc="os", handler_fault=None, inside_remove=None):
         self.target = os.path.abspath(str(target))
         self.inject_at = inject_at
         self.exc = EXC[exc]
@@ -68,6 +83,12 @@ class Tracer:
         self.depth = 0
         self.active = False
         self.fired = False
+        # faults inside the clean-up handlers / inside a non-atomic primitive
+        self.handler_fault = handler_fault    # None | "hclean" (TemporaryDirectory clean-up raises) | "zclose"
+        self.hfired = False
+        self.inside_remove = inside_remove    # None | j: shutil.rmtree(target) removes j files, then raises
+        self.temps = []                       # directories handed out by tempfile.mkdtemp during the save
+        self.audit = []                       # [site, absolute path]: the path every target-naming site was given
 
     def is_target(self, p):
         try:
@@ -105,6 +126,23 @@ def _wrap(orig, kind, name, relevant=None, detail=None, nesting=True):
         if tr.inject_at == j and not tr.fired:
             tr.fired = True
             raise tr.exc("injected fault before event %d (%s %s %s)" % (j, kind, name, d))
+        if kind == "zclose" and tr.handler_fault == "zclose" and tr.fired and not tr.hfired:
+            # ZipFile.__exit__ -> close() while the injected exception propagates: the handler itself fails
+            tr.hfired = True
+            raise InjectedOSError("injected fault inside the clean-up handler ZipFile.__exit__")
+        if kind == "remove" and tr.inside_remove is not None and not tr.hfired and a and os.path.isdir(a[0]) \
+                and not os.path.islink(a[0]):
+            # shutil.rmtree(target) is not atomic: it removes `inside_remove` files (bottom-up), then fails
+            tr.hfired = True
+            n = 0
+            for dp, _dn, fn in os.walk(a[0], topdown=False):
+                for x in sorted(fn):
+                    if n >= tr.inside_remove:
+                        break
+                    os.unlink(os.path.join(dp, x))
+                    n += 1
+            tr.fired = True
+            raise InjectedOSError("injected fault inside shutil.rmtree(target) after %d files" % n)
         if nesting:
             tr.depth += 1
         try:
@@ -113,6 +151,8 @@ def _wrap(orig, kind, name, relevant=None, detail=None, nesting=True):
             if nesting:
                 tr.depth -= 1
         tr.events[j][3] = True
+        if kind == "mktemp":
+            tr.temps.append(os.path.abspath(r if isinstance(r, str) else r[1]))
         return r
 
     wrapper.__name__ = getattr(orig, "__name__", name)
@@ -196,17 +236,66 @@ def install():
         d = a[1] if len(a) > 1 else kw.get("dst")
         return tr.is_target(d)
 
+    def audit(site, pick):
+        def d(tr, a, kw):
+            try:
+                v = pick(a, kw)
+                tr.audit.append([site, os.path.abspath(os.fspath(v)) if v is not None else None])
+            except Exception:  # noqa
+                tr.audit.append([site, "?"])
+            return ""
+        return d
+
+    def on_target0_audit(site):
+        def rel(tr, a, kw):
+            v = a[0] if a else kw.get("path", kw.get("name"))
+            hit = tr.is_target(v)
+            if hit:
+                tr.audit.append([site, os.path.abspath(os.fspath(v))])
+            return hit
+        return rel
+
+    def dst_target_audit(tr, a, kw):
+        d = a[1] if len(a) > 1 else kw.get("dst")
+        hit = tr.is_target(d)
+        if hit:
+            src = a[0] if a else kw.get("src")
+            tr.audit.append(["rename_dst", os.path.abspath(os.fspath(d))])
+            tr.audit.append(["rename_src", os.path.abspath(os.fspath(src))])
+        return hit
+
     patch(os, "makedirs", "mkdir", "os.makedirs", relevant=on_target0)
     patch(os, "mkdir", "mkdir", "os.mkdir", relevant=on_target0)
-    patch(os, "remove", "remove", "os.remove", relevant=on_target0)
-    patch(os, "unlink", "remove", "os.unlink", relevant=on_target0)
-    patch(os, "rmdir", "remove", "os.rmdir", relevant=on_target0)
-    patch(shutil, "rmtree", "remove", "shutil.rmtree", relevant=on_target0)
-    patch(os, "replace", "rename", "os.replace", relevant=dst_target)
-    patch(os, "rename", "rename", "os.rename", relevant=dst_target)
-    patch(shutil, "move", "rename", "shutil.move", relevant=dst_target)
-    patch(tempfile, "mkdtemp", "mktemp", "tempfile.mkdtemp")
+    patch(os, "remove", "remove", "os.remove", relevant=on_target0_audit("remove"))
+    patch(os, "unlink", "remove", "os.unlink", relevant=on_target0_audit("remove"))
+    patch(os, "rmdir", "remove", "os.rmdir", relevant=on_target0_audit("remove"))
+    patch(shutil, "rmtree", "remove", "shutil.rmtree", relevant=on_target0_audit("remove"))
+    patch(os, "replace", "rename", "os.replace", relevant=dst_target_audit)
+    patch(os, "rename", "rename", "os.rename", relevant=dst_target_audit)
+    patch(shutil, "move", "rename", "shutil.move", relevant=dst_target_audit)
+    patch(tempfile, "mkdtemp", "mktemp", "tempfile.mkdtemp",
+          detail=audit("temp_parent", lambda a, kw: kw.get("dir", a[2] if len(a) > 2 else None)))
     patch(tempfile, "mkstemp", "mktemp", "tempfile.mkstemp")
+
+    # --- the clean-up handler of TemporaryDirectory: shutil.rmtree of a directory mkdtemp handed out during
+    # this save.  NOT an event (it is not an effect of the protocol): only a place where a handler fault can
+    # be injected (Tracer.handler_fault == "hclean"): the handler raises before removing anything.
+    rmtree_now = shutil.rmtree          # the event wrapper installed above
+
+    def rmtree_cleanup(path, *a, **kw):
+        tr = _CUR[0]
+        if tr is not None and tr.active and tr.depth == 0 and tr.handler_fault == "hclean" and not tr.hfired:
+            try:
+                ap = os.path.abspath(os.fspath(path))
+            except TypeError:
+                ap = None
+            if ap in tr.temps:
+                tr.hfired = True
+                raise InjectedOSError("injected fault inside the clean-up handler TemporaryDirectory.__exit__")
+        return rmtree_now(path, *a, **kw)
+
+    rmtree_cleanup.__wrapped__ = rmtree_now
+    shutil.rmtree = rmtree_cleanup
 
 
 @contextlib.contextmanager
@@ -219,12 +308,13 @@ def quiet():
         sys.stdout = old
 
 
-def traced_save(obj, target, mode, store, inject_at=None, exc="os", save_arg=None, save_store=None):
+def traced_save(obj, target, mode, store, inject_at=None, exc="os", save_arg=None, save_store=None,
+                handler_fault=None, inside_remove=None):
     """run obj.save(target, mode, store) under a Tracer; returns (tracer, outcome, exception)
     outcome: "done" | "exists" (FileExistsError) | "fault" (the injected exception came out) |
              "error:<Type>" (any other exception)"""
     install()
-    tr = Tracer(target, inject_at, exc)
+    tr = Tracer(target, inject_at, exc, handler_fault=handler_fault, inside_remove=inside_remove)
     _CUR[0] = tr
     out, err = "done", None
     try:
@@ -467,6 +557,8 @@ def snapshot(root, exclude=None):
 def snapshot_target(target):
     if not os.path.lexists(target):
         return None
+    if os.path.islink(target):
+        return ("link", os.readlink(target))
     if os.path.isdir(target):
         return ("dir", tuple(sorted(snapshot(target).items())))
     with open(target, "rb") as fh:
@@ -516,21 +608,30 @@ class Scenario:
               <base>/systmp/             tempfile.tempdir while saving (must be empty afterwards)
     """
 
-    def __init__(self, base, spec, store, mode, pre, old_spec=None, path_form="exact"):
+    def __init__(self, base, spec, store, mode, pre, old_spec=None, path_form="exact", naming=None):
         # path_form: how the caller names the target — "exact" (str, resolved name), "noext" (zip store
         # given a path without the .zip suffix: save appends it), "auto" (store="auto": inferred from the
         # suffix), "pathlib" (a pathlib.Path).  The target the property speaks about is the resolved path.
+        # naming (jobs of kind "names"): {"raw": name as the caller writes it (relative to the run directory,
+        # which is the cwd), "store_arg": the store argument, "as_path": pass a pathlib.Path, "resolved": the
+        # name the MODEL resolves (str(arg), store_arg) to, "decoy": None|"file"|"dir" put at the raw name}
         self.path_form = path_form
+        self.naming = naming
         self.base = str(base)
         self.spec, self.store, self.mode, self.pre = spec, store, mode, pre
         self.old_spec = old_spec if old_spec is not None else [["a0_int", "int", 7, None], ["a1_nd_i4", "nd_i4", 3, None]]
         self.name = "obj.zip" if store == "zip" else "obj"
+        if pre == "noparent":
+            self.name = os.path.join("nodir", "sub", self.name)
+        if naming is not None:
+            self.name = os.path.normpath(naming["resolved"])
         self.template = os.path.join(self.base, "template", "case")
         self.rundir = os.path.join(self.base, "run", "case")
         self.systmp = os.path.join(self.base, "systmp")
-        self.target = os.path.join(self.rundir, self.name)
+        self.target = os.path.normpath(os.path.join(self.rundir, self.name))
         self.c_old = None
         self.c_new = None
+        self.immutable = pre in ("immfile", "immdir")
 
     # reference forms: what a *successful* save of the same object loads back to
     def _reference(self, spec, tag):
@@ -538,7 +639,7 @@ class Scenario:
         ref = os.path.join(self.base, "ref")
         shutil.rmtree(ref, ignore_errors=True)
         os.makedirs(ref)
-        p = os.path.join(ref, self.name)
+        p = os.path.join(ref, "obj.zip" if self.store == "zip" else "obj")
         with quiet():
             build(spec, tag).save(p, mode="w", store=self.store)
             c = canon(load(p))
@@ -547,45 +648,99 @@ class Scenario:
 
     def prepare(self, need_new_reference=True):
         from quantem.core.io.serialize import load
+        self.unlock()
         shutil.rmtree(self.base, ignore_errors=True)
         os.makedirs(self.template)
         os.makedirs(self.systmp)
-        t = os.path.join(self.template, self.name)
+        t = os.path.normpath(os.path.join(self.template, self.name))
         with open(os.path.join(self.template, "sibling.txt"), "w") as f:
             f.write("sibling of the target\n")
-        with open(os.path.join(self.template, self.name + ".bak"), "w") as f:
-            f.write("a backup next to the target\n")
         os.makedirs(os.path.join(self.template, "sibdir"))
         with open(os.path.join(self.template, "sibdir", "inner.txt"), "w") as f:
             f.write("inner\n")
-        if self.pre in ("oldzip", "olddir"):
+        os.makedirs(os.path.join(self.template, "x"))          # an existing directory for names like x/../obj
+        parent_exists = os.path.isdir(os.path.dirname(t))
+        if parent_exists:
+            with open(t + ".bak", "w") as f:
+                f.write("a backup next to the target\n")
+        pre = self.pre if parent_exists else "none"
+        if pre in ("oldzip", "olddir", "symdir", "immdir"):
             old = build(self.old_spec, "old")
             with quiet():
-                if self.pre == "oldzip":
+                if pre == "oldzip":
                     tmpz = os.path.join(self.base, "old.zip")
                     old.save(tmpz, mode="w", store="zip")
                     os.replace(tmpz, t)          # a zip archive, whatever the target's extension
+                elif pre == "symdir":
+                    old.save(os.path.join(self.template, "linked_store"), mode="w", store="dir")
+                    os.symlink("linked_store", t)    # the target is a symbolic link to a directory store
                 else:
                     tmpd = os.path.join(self.base, "olddir")
                     old.save(tmpd, mode="w", store="dir")
                     os.replace(tmpd, t)          # a directory store, even if the target is called *.zip
                 self.c_old = canon(load(t))
-        elif self.pre == "other":
+        elif pre in ("other", "immfile"):
             with open(t, "w") as f:
                 f.write("not an archive: some unrelated file the user keeps here\n")
+        elif pre == "emptydir":
+            os.makedirs(t)
+        elif pre == "foreigndir":
+            os.makedirs(t)
+            with open(os.path.join(t, "notes.txt"), "w") as f:
+                f.write("a directory that is not a store\n")
+        elif pre == "foreignzip":
+            with zipfile.ZipFile(t, "w") as zf:
+                zf.writestr("readme.txt", "an archive that is not a store\n")
+        elif pre == "symfile":
+            with open(os.path.join(self.template, "linked.bin"), "w") as f:
+                f.write("the file a symbolic link at the target points to\n")
+            os.symlink("linked.bin", t)
+        elif pre == "dangling":
+            os.symlink("nowhere-at-all", t)
+        if self.naming is not None and self.naming.get("decoy"):
+            # something at the name AS GIVEN (when it differs from the resolved one): must stay untouched and
+            # must not influence the existence check
+            d = os.path.normpath(os.path.join(self.template, self.naming["raw"]))
+            if d != t and not (t + os.sep).startswith(d + os.sep) and os.path.isdir(os.path.dirname(d)) \
+                    and not os.path.lexists(d):
+                if self.naming["decoy"] == "dir":
+                    os.makedirs(d)
+                    with open(os.path.join(d, "decoy.txt"), "w") as f:
+                        f.write("decoy\n")
+                else:
+                    with open(d, "w") as f:
+                        f.write("decoy at the name as given\n")
+                self.decoy_made = True
         if need_new_reference:
             self.c_new = self._reference(self.spec, "new")
         # class of the target as prepared (a target whose bytes are unchanged loads the same)
         self.initial_class = classify(t, self.c_old, self.c_new)
+        if pre in ("emptydir", "foreigndir") and os.path.exists(os.path.join(t, "zarr.json")):
+            # load() of a directory that is no store creates a zarr.json in it: undo, the template stays as prepared
+            os.remove(os.path.join(t, "zarr.json"))
         self.initial_snapshot = snapshot_target(t)
 
+    decoy_made = False
+
+    def unlock(self):
+        if self.immutable and os.path.isdir(self.base):
+            subprocess.run(["chattr", "-R", "-i", self.base], stdout=subprocess.DEVNULL, stderr=subprocess.DEVNULL)
+
+    def lock(self):
+        r = subprocess.run(["chattr", "-R", "+i", self.target], stdout=subprocess.DEVNULL, stderr=subprocess.DEVNULL)
+        if r.returncode != 0:
+            raise ImmutableUnsupported()
+
     def fresh(self):
+        self.unlock()
         shutil.rmtree(os.path.dirname(self.rundir), ignore_errors=True)
         shutil.copytree(self.template, self.rundir, symlinks=True)
         for x in os.listdir(self.systmp):
             shutil.rmtree(os.path.join(self.systmp, x), ignore_errors=True)
+        if self.immutable:
+            self.lock()
 
-    def run(self, inject_at=None, exc="os", spec=None):
+    def run(self, inject_at=None, exc="os", spec=None, handler_fault=None, inside_remove=None):
         """one save on a fresh copy; returns the observation dict"""
         self.fresh()
         obj = build(spec if spec is not None else self.spec, "new")
@@ -593,9 +748,14 @@ class Scenario:
         before_tgt = snapshot_target(self.target)
         old_tmp = tempfile.tempdir
         tempfile.tempdir = self.systmp
+        old_cwd = os.getcwd()
         try:
             save_arg, save_store = None, None
-            if self.path_form == "noext" and self.store == "zip":
+            if self.naming is not None:
+                os.chdir(self.rundir)                 # relative names are relative to the run directory
+                save_arg = Path(self.naming["raw"]) if self.naming["as_path"] else self.naming["raw"]
+                save_store = self.naming["store_arg"]
+            elif self.path_form == "noext" and self.store == "zip":
                 save_arg = self.target[:-len(".zip")]
             elif self.path_form == "auto":
                 save_store = "auto"
@@ -603,8 +763,10 @@ class Scenario:
                 import pathlib
                 save_arg = pathlib.Path(self.target)
             tr, out, err = traced_save(obj, self.target, self.mode, self.store, inject_at, exc,
-                                       save_arg=save_arg, save_store=save_store)
+                                       save_arg=save_arg, save_store=save_store,
+                                       handler_fault=handler_fault, inside_remove=inside_remove)
         finally:
+            os.chdir(old_cwd)
             tempfile.tempdir = old_tmp
         after_sib = snapshot(self.rundir, exclude=self.target)
         after_tgt = snapshot_target(self.target)
@@ -624,16 +786,23 @@ class Scenario:
             "target_unmodified": before_tgt == after_tgt,
             "siblings_changed": diff_snap(before_sib, after_sib),
             "temp_leftovers": leftovers,
-            "fired": tr.fired,
+            "fired": tr.fired, "hfired": tr.hfired,
+            "temps": [os.path.relpath(t, self.rundir) for t in tr.temps],
+            "audit": [[k, (os.path.relpath(v, self.rundir) if isinstance(v, str) and v != "?" else v)] for k, v in tr.audit],
         }
 
     def cleanup(self):
+        self.unlock()
         shutil.rmtree(self.base, ignore_errors=True)
+
+
+class ImmutableUnsupported(Exception):
+    pass
 
 
 # ------------------------------------------------------------------------------------------
 # jobs (run in worker processes: `python -m harness.impl_C08 jobs.json out.json scratch`)
-EXC_CYCLE = ["os", "rt", "kbd"]
+EXC_CYCLE = ["os", "rt", "kbd", "sysexit", "genexit", "base"]
 
 
 def slim(obs):
@@ -643,39 +812,171 @@ def slim(obs):
     return o
 
 
+def sample_positions(n, want):
+    """a few fault positions of a trace of n events: first, last, and evenly spread ones"""
+    if n <= want:
+        return list(range(n))
+    return sorted({0, n - 1} | {(i * (n - 1)) // (want - 1) for i in range(want)})
+
+
+def load_classes(scratch):
+    """load() on one on-disk instance of every class of entry of the model; returns
+    [[label, model entry (Coq text), "obj"|"err:<Type>"]]"""
+    from quantem.core.io.serialize import load
+    base = os.path.join(scratch, "loadclass")
+    shutil.rmtree(base, ignore_errors=True)
+    os.makedirs(base)
+    old_tmp = tempfile.tempdir
+    tempfile.tempdir = os.path.join(base, "systmp")
+    os.makedirs(tempfile.tempdir)
+    out = []
+    try:
+        spec = [["a0_int", "int", 7, None], ["a1_nd_i4", "nd_i4", 3, None], ["a2_dict", "dict", 5, None]]
+        with quiet():
+            build(spec, "old").save(os.path.join(base, "gooddir"), mode="w", store="dir")
+            build(spec, "old").save(os.path.join(base, "good.zip"), mode="w", store="zip")
+        c_ref = canon(load(os.path.join(base, "gooddir")))
+
+        def probe(label, entry, path, expect_obj=False):
+            try:
+                with quiet():
+                    o = load(path)
+                r = "obj" if (not expect_obj or canon(o) == c_ref) else "obj-differs"
+            except BaseException as e:  # noqa
+                r = "err:" + type(e).__name__
+            out.append([label, entry, r])
+
+        probe("absent", "Absent", os.path.join(base, "nothing-here"))
+        with open(os.path.join(base, "other.txt"), "w") as f:
+            f.write("some file\n")
+        probe("other-file", "(Other 7)", os.path.join(base, "other.txt"))
+        os.makedirs(os.path.join(base, "emptydir"))
+        probe("empty-directory", "(Dir [])", os.path.join(base, "emptydir"))
+        os.makedirs(os.path.join(base, "foreigndir"))
+        with open(os.path.join(base, "foreigndir", "notes.txt"), "w") as f:
+            f.write("x\n")
+        probe("directory-without-store", "(Dir [77%Z])", os.path.join(base, "foreigndir"))
+        # a zarr group written by something else: root metadata without the `_autoserialize` key
+        import zarr
+        from zarr.storage import LocalStore
+        g = zarr.group(store=LocalStore(os.path.join(base, "nomarkerdir")), overwrite=True)
+        g.attrs["something"] = 1
+        g.create_array("arr", shape=(3,), dtype="int32")
+        probe("directory-store-without-_autoserialize", "(Dir [2%Z; 3%Z])", os.path.join(base, "nomarkerdir"))
+        with zipfile.ZipFile(os.path.join(base, "nomarker.zip"), "w") as zf:
+            for dp, _dn, fn in os.walk(os.path.join(base, "nomarkerdir")):
+                for x in fn:
+                    full = os.path.join(dp, x)
+                    zf.write(full, arcname=os.path.relpath(full, os.path.join(base, "nomarkerdir")))
+        probe("archive-without-_autoserialize", "(Zip true [502%Z; 503%Z])", os.path.join(base, "nomarker.zip"))
+        with zipfile.ZipFile(os.path.join(base, "foreign.zip"), "w") as zf:
+            zf.writestr("readme.txt", "x")
+        probe("archive-of-something-else", "(Zip true [88%Z])", os.path.join(base, "foreign.zip"))
+        # an archive whose end record was never written (what a failing close leaves)
+        data = open(os.path.join(base, "good.zip"), "rb").read()
+        cut = data.rfind(b"PK\x05\x06")
+        with open(os.path.join(base, "noend.zip"), "wb") as f:
+            f.write(data[:cut])
+        probe("archive-without-end-record", "(Zip false (zseq 500 3))", os.path.join(base, "noend.zip"))
+        with open(os.path.join(base, "empty.zip"), "wb") as f:
+            pass
+        probe("empty-file", "(Zip false [])", os.path.join(base, "empty.zip"))
+        probe("complete-directory-store", "(Dir (zseq 1000 6))", os.path.join(base, "gooddir"), True)
+        probe("complete-archive", "(Zip true (zseq 1500 3))", os.path.join(base, "good.zip"), True)
+        os.symlink("gooddir", os.path.join(base, "linkdir"))
+        probe("symlink-to-complete-directory-store", "(Dir (zseq 1000 6))", os.path.join(base, "linkdir"), True)
+        os.symlink("good.zip", os.path.join(base, "link.zip"))
+        probe("symlink-to-complete-archive", "(Zip true (zseq 1500 3))", os.path.join(base, "link.zip"), True)
+        os.symlink("nowhere", os.path.join(base, "dangling"))
+        probe("dangling-symlink", "Absent", os.path.join(base, "dangling"))
+    finally:
+        tempfile.tempdir = old_tmp
+        shutil.rmtree(base, ignore_errors=True)
+    return out
+
+
 def run_job(job, scratch):
-    """job = {"id", "kind": "enum"|"natural"|"single", "spec", "store", "mode", "pre", "old_spec", "phase"}
-    enum:    clean traced save + one faulted save per event of the clean trace
-    natural: the spec contains an attribute whose serialisation raises; one traced save
-    single:  one faulted save (replay): job["inject_at"], job["exc"]"""
-    sc = Scenario(os.path.join(scratch, "s%s" % job["id"]), job["spec"], job["store"], job["mode"], job["pre"],
-                  job.get("old_spec"), job.get("path_form", "exact"))
+    """job = {"id", "kind", "spec", "store", "mode", "pre", "old_spec", "phase", ...}
+    enum:      clean traced save + one faulted save per event of the clean trace
+    natural:   the spec contains an attribute whose serialisation raises; one traced save
+    single:    one faulted save (replay): job["inject_at"], job["exc"]
+    names:     the caller's spelling of the target (job["naming"]): clean save + a few faulted saves
+    hfault:    faults inside the clean-up handlers (alone at normal exit, and on top of a fault at every event)
+    rmfault:   shutil.rmtree(old directory target) interrupted after j files, for several j
+    loadclass: load() of one instance of every class of on-disk entry"""
     out = {"id": job["id"]}
+    if job["kind"] == "loadclass":
+        out["loadclass"] = load_classes(scratch)
+        return out
+    root = scratch
+    if job["pre"] in ("immfile", "immdir"):
+        root = job.get("imm_root") or scratch        # chattr needs a file system that supports it (not tmpfs)
+        os.makedirs(root, exist_ok=True)
+    sc = Scenario(os.path.join(root, "s%s" % job["id"]), job["spec"], job["store"], job["mode"], job["pre"],
+                  job.get("old_spec"), job.get("path_form", "exact"), naming=job.get("naming"))
     try:
         if job["kind"] == "natural":
             sc.prepare(need_new_reference=False)
             r = sc.run()
             out["natural"] = {**slim(r), "completed": r["completed"]}
             return out
-        sc.prepare()
-        clean = sc.run()
+        sc.prepare(need_new_reference=job.get("valid", True))
+        out["decoy_made"] = sc.decoy_made
+        try:
+            clean = sc.run()
+        except ImmutableUnsupported:
+            out["skipped"] = "chattr +i is not supported on %s" % root
+            return out
         out["clean"] = slim(clean)
         if job["kind"] == "single":
-            out["faults"] = [dict(slim(sc.run(inject_at=job["inject_at"], exc=job.get("exc", "os"))),
+            out["faults"] = [dict(slim(sc.run(inject_at=job["inject_at"], exc=job.get("exc", "os"),
+                                               handler_fault=job.get("handler_fault"),
+                                               inside_remove=job.get("inside_remove"))),
                                   j=job["inject_at"], exc=job.get("exc", "os"))]
             return out
-        faults = []
-        for j in range(len(clean["events"])):
-            exc = EXC_CYCLE[(j + job.get("phase", 0)) % 3]
-            r = sc.run(inject_at=j, exc=exc)
-            r = slim(r)
+
+        def faulted(j, exc, **kw):
+            r = slim(sc.run(inject_at=j, exc=exc, **kw))
             # the faulted run must have followed the clean trace up to the fault
             # (events recorded after position j come from the clean-up handlers, e.g. ZipFile.__exit__)
-            r["prefix_ok"] = [e[0] for e in r["events"][:j + 1]] == [e[0] for e in clean["events"][:j + 1]]
+            if j is not None:
+                r["prefix_ok"] = [e[0] for e in r["events"][:j + 1]] == [e[0] for e in clean["events"][:j + 1]]
             r.pop("events")
             r.pop("state_kinds")
             r["j"], r["exc"] = j, exc
+            return r
+
+        n_ev = len(clean["events"])
+        if job["kind"] == "rmfault":
+            nfiles = sum(len(fn) for _dp, _dn, fn in os.walk(os.path.join(sc.template, sc.name)))
+            out["nfiles"] = nfiles
+            out["faults"] = []
+            for jj in sample_positions(max(0, nfiles - 1), job.get("n_positions", 5)):
+                r = faulted(None, "os", inside_remove=jj + 1)
+                r["removed"] = jj + 1
+                out["faults"].append(r)
+            return out
+        if job["kind"] == "hfault":
+            faults = []
+            r = faulted(None, "os", handler_fault="hclean")
+            r["hf"] = "hclean"
             faults.append(r)
+            for j in range(n_ev):
+                exc = EXC_CYCLE[(j + job.get("phase", 0)) % len(EXC_CYCLE)]
+                r = faulted(j, exc, handler_fault="hclean")
+                r["hf"] = "hclean"
+                faults.append(r)
+                if clean["events"][j][0] in ("z", "zclose"):
+                    r = faulted(j, exc, handler_fault="zclose")
+                    r["hf"] = "zclose"
+                    faults.append(r)
+            out["faults"] = faults
+            return out
+        positions = range(n_ev) if job["kind"] == "enum" else sample_positions(n_ev, job.get("n_positions", 4))
+        faults = []
+        for j in positions:
+            exc = EXC_CYCLE[(j + job.get("phase", 0)) % len(EXC_CYCLE)]
+            faults.append(faulted(j, exc))
         out["faults"] = faults
         return out
     finally:
